@@ -338,7 +338,7 @@ func (s *BoltSnapshotSink) writeBoltDBFile() error {
 	}
 
 	// Write the snapshot metadata
-	if err := writeSnapshotMetaToDB(&s.meta, boltDB); err != nil {
+	if _, err := writeSnapshotMetaToDB(&s.meta, boltDB, false); err != nil {
 		return err
 	}
 
